@@ -29,10 +29,10 @@ ASSUMPTIONS = ['vt/ref/arc.py implements F.6.5/F.6.6 correctly (math module only
 TIERS = {
     'quick': {'shards': 14, 'grid_stride': 5, 'random': 9000, 'timeout': 600, 'min_cases': 6000,
               'require_branches': ['lam:scaled', 'lam:fits', 'lam:band', 'flags:00', 'flags:01', 'flags:10', 'flags:11',
-                                   'delta:>180', 'delta:<180', 'neg-radius', 'via:parser', 'via:cropped']},
+                                   'delta:>180', 'delta:<180', 'neg-radius', 'via:parser', 'via:cropped', 'hash-twin-pair']},
     'thorough': {'shards': 14, 'grid_stride': 1, 'random': 400000, 'timeout': 3000, 'min_cases': 100000,
                  'require_branches': ['lam:scaled', 'lam:fits', 'lam:band', 'flags:00', 'flags:01', 'flags:10', 'flags:11',
-                                      'delta:>180', 'delta:<180', 'neg-radius', 'via:parser', 'via:cropped']},
+                                      'delta:>180', 'delta:<180', 'neg-radius', 'via:parser', 'via:cropped', 'hash-twin-pair']},
 }
 EPS = gen.EPS
 TS = [0, 1, 0.25, 0.5, 0.75, 0.123456789, 0.987654321]
@@ -289,6 +289,23 @@ def cases(ctx):
             spec = ['A', [s.real, s.imag], [rng.uniform(0.01, 3) * scale, rng.uniform(0.01, 3) * scale],
                     rng.uniform(-400, 400), rng.random() < 0.5, rng.random() < 0.5, [e.real, e.imag]]
         cls = ['random']
+        if rng.random() < 0.04:
+            # integer-like arcs in -1 / -2 pairs
+            which = rng.choice(['sx', 'sy', 'ex', 'ey', 'rot'])
+            base = ['A', [float(rng.randint(-9, 9)), float(rng.randint(-9, 9))], [float(rng.randint(1, 12)), float(rng.randint(1, 12))],
+                    float(rng.choice([0, 30, 45, -1])), rng.random() < 0.5, rng.random() < 0.5,
+                    [float(rng.randint(10, 30)), float(rng.randint(-9, 9))]]
+
+            def with_val(v):
+                sp = [base[0], list(base[1]), list(base[2]), base[3], base[4], base[5], list(base[6])]
+                if which == 'rot':
+                    sp[3] = float(v)
+                else:
+                    sp[{'s': 1, 'e': 6}[which[0]]][{'x': 0, 'y': 1}[which[1]]] = float(v)
+                return sp
+            va, vb = rng.choice([(-1, -2), (-2, -1)])
+            yield {'kind': 'arc', 'arc': with_val(vb), 'twin': with_val(va), 'cls': ['hash-twin']}
+            continue
         if rng.random() < 0.15:
             # very short arcs: chord/radius down to 1e-12 (what Path.cropped produces next to a joint)
             s = gen.scaled_point(rng, scale)
@@ -305,6 +322,13 @@ def cases(ctx):
 def run_case(ctx, case):
     from svgpathtools import parse_path, Path
     spec = case['arc']
+    if case.get('twin') is not None:
+        # an arc that differs from one constructed just before only in a -1 / -2 (CPython: hash(-1) == hash(-2), so
+        # the two have equal hashes and unequal geometry); each is judged from its own constructor arguments
+        ctx.branch('hash-twin-pair')
+        first = gen.seg(case['twin'])
+        first.point(0.3)
+        first.length()
     a = gen.seg(spec)
     for t in TS:
         a.point(t)
